@@ -305,7 +305,7 @@ func apuGenSamples(c *Ctx, w *trace.Writer) {
 		rng := c.Rand(2102)
 		ns := 40
 		if c.Thorough() {
-			ns = 300
+			ns = 1200
 		}
 		for i := 0; i < ns; i++ {
 			w.Put(sweepRun(fmt.Sprintf("gen-sweep-%d", i), rng.Int63n(1<<40)))
